@@ -935,6 +935,11 @@ fn bulk_case_strategy() -> impl Strategy<Value = SeqCase> {
 }
 
 fn quarantine_verdict(what: &str) -> Result<(), CaseFail> {
+    let (df, dsz) = crate::alloc::take_double_frees();
+    if df > 0 {
+        let _ = crate::alloc::drain_and_check();
+        return Err(CaseFail { prop: "C03".into(), msg: format!("[C03] double free during {}: a block of {} bytes that was already freed was freed again", what, dsz) });
+    }
     let (c, size, off) = crate::alloc::drain_and_check();
     if c > 0 {
         return Err(CaseFail { prop: "C03".into(), msg: format!("[C03] write after free during {}: a freed block of {} bytes was modified at offset {} while parked in the quarantine", what, size, off) });
